@@ -12,10 +12,7 @@ I64 = numpy.int64
 
 META = {
     "level": "exploration",
-    "rule": ("case = (array, counts?, common class, mapping class, way back); arrays 1-D/2-D, N in {0,1,2,3,7,17,64,"
-             "80,81,200,1000,5000,(2e4,2e5)}, alphabets incl. dtype boundaries up to 2^63-1 and negatives down to "
-             "-2^63, sparsity uniform..99.95% common, any storage dtype that holds the alphabet. Non-trivial: >=2 "
-             "distinct values and >=1 cell different from the stored common; distinct by content hash of the case"),
+    "rule": ("case = (array, counts?, common class, mapping class, way back); arrays 1-D/2-D, N in {0,1,2,3,7,17,64,80,81,200,1000,5000,(2e4,2e5)}, alphabets incl. dtype boundaries up to 2^63-1 and negatives down to -2^63, sparsity uniform..99.95% common, any storage dtype that holds the alphabet; every memory layout (C, F, strided, list); fixed corners of >2^20 rows / >2^22 cells (both strategies, a value in three cells only), >65536 distinct values, >255 columns; coarsening mappings (30-400 inputs onto few categories); counts dicts in any key order; second construction from the same option objects. Non-trivial: >=2 distinct values and >=1 cell different from the stored common; distinct by content hash of the case"),
     "require": {"quick": ["class:rowscan_shape", "class:mapping=many_to_one", "class:common=absent",
                           "class:alphabet=neg", "class:alphabet=b63", "class:counts=given", "class:back=mapping",
                           "class:n=0", "class:ndim=2", "class:layout=F", "class:layout=strided", "class:layout=list",
@@ -24,8 +21,7 @@ META = {
                 "thorough": ["class:rowscan_shape", "class:mapping=many_to_one", "class:common=absent",
                              "class:alphabet=neg", "class:alphabet=b63", "class:counts=given", "class:back=mapping",
                              "class:n=0", "class:ndim=2", "class:n>=20000"]},
-    "assumptions": ["N=0 without a common value and without a mapping is refused by from_array by contract "
-                    "(ValueError 'No values or common value provided'): not generated",
+    "assumptions": ["N=0 without a common value and without a mapping is refused by from_array by contract (ValueError 'No values or common value provided'): not generated",
                     "integer categories only (str/object categories are outside the property)"],
 }
 
